@@ -9,6 +9,7 @@ package main
 // on the copy (crash/restart point, C03).
 
 import (
+	"context"
 	"database/sql"
 	"encoding/binary"
 	"encoding/json"
@@ -89,6 +90,9 @@ type rangeScn struct {
 	seenMac []int
 	base    uint32
 	id      int
+	dbq     string  // query part of the database argument (fault scenarios: a short busy timeout)
+	foreign *sql.DB // the environment's own connection to the lease database
+	fconn   *sql.Conn
 }
 
 func (s *rangeScn) mac(id int) net.HardwareAddr {
@@ -132,7 +136,7 @@ func (s *rangeScn) setup(restart bool) bool {
 				err = fmt.Errorf("panic: %v", r)
 			}
 		}()
-		h, err = rangeplugin.Plugin.Setup4(s.db, s.g.start, s.g.end, strconv.Itoa(s.lease)+"s")
+		h, err = rangeplugin.Plugin.Setup4(s.db+s.dbq, s.g.start, s.g.end, strconv.Itoa(s.lease)+"s")
 	}()
 	res := "ok"
 	msg := ""
@@ -381,6 +385,35 @@ func (s *rangeScn) run(letters []string) {
 			time.Sleep(2100 * time.Millisecond)
 			s.t.Emit(Ev{"ev": "tick"})
 			continue
+		case l == "faulton":
+			// a transient storage fault: somebody else holds a write transaction on the lease database
+			if s.fconn != nil {
+				continue
+			}
+			db, err := sql.Open("sqlite3", "file:"+s.db)
+			if err != nil {
+				continue
+			}
+			c, err := db.Conn(context.Background())
+			if err == nil {
+				_, err = c.ExecContext(context.Background(), "begin immediate")
+			}
+			if err != nil {
+				db.Close()
+				continue
+			}
+			s.foreign, s.fconn = db, c
+			s.t.Emit(Ev{"ev": "fault", "on": true})
+			continue
+		case l == "faultoff":
+			if s.fconn == nil {
+				continue
+			}
+			s.fconn.ExecContext(context.Background(), "rollback")
+			s.fconn.Close()
+			s.foreign.Close()
+			s.foreign, s.fconn = nil, nil
+			s.t.Emit(Ev{"ev": "fault", "on": false})
 		default:
 			id, _ := strconv.Atoi(l[1:])
 			mt := dhcpv4.MessageTypeDiscover
@@ -389,9 +422,15 @@ func (s *rangeScn) run(letters []string) {
 			}
 			s.req(mt, id, hostClasses[s.r.Intn(len(hostClasses))])
 		}
-		if s.probe {
+		if s.probe && s.fconn == nil {
 			s.restartProbe(l)
 		}
+	}
+	if s.fconn != nil {
+		s.fconn.ExecContext(context.Background(), "rollback")
+		s.fconn.Close()
+		s.foreign.Close()
+		s.foreign, s.fconn = nil, nil
 	}
 }
 
@@ -583,6 +622,46 @@ func runRange(args []string) error {
 		return runRangeReplay(t, *dir, *replay, &nsetup)
 	}
 	switch *mode {
+	case "fault":
+		// histories with ONE window in which the lease database cannot be written (somebody else's write
+		// transaction), crash points after every event outside the window
+		fixed := [][]string{
+			{"D0", "faulton", "D1", "D1", "faultoff", "D1", "D2", "D3", "R0", "restart", "D1", "D2", "D3"},
+			{"D0", "D1", "faulton", "R0", "D2", "faultoff", "R2", "D3", "R1", "restart", "D0", "D3"},
+			{"faulton", "D0", "faultoff", "D0", "D1", "restart", "D1", "D0"},
+			{"D0", "faulton", "D1", "D2", "D3", "D4", "faultoff", "D4", "D3", "D5", "R0"},
+		}
+		for k := *shard; k < len(fixed)+*count; k += *shards {
+			r := rand.New(rand.NewSource(*seed*104729 + int64(k)))
+			var letters []string
+			if k < len(fixed) {
+				letters = fixed[k]
+			} else {
+				alpha := rangeAlphabet(5)
+				nl := 8 + r.Intn(6)
+				on := 1 + r.Intn(nl-4)
+				off := on + 1 + r.Intn(3)
+				for i := 0; i < nl; i++ {
+					if i == on {
+						letters = append(letters, "faulton")
+					}
+					if i == off {
+						letters = append(letters, "faultoff")
+					}
+					l := alpha[r.Intn(len(alpha))]
+					if l == "tick" {
+						l = "D1"
+					}
+					if l == "restart" && i >= on && i < off {
+						l = "D2" // no restart while the database is locked
+					}
+					letters = append(letters, l)
+				}
+			}
+			s := newRangeScn(t, *dir, k, mkRangeGeom("10.0.0.1", 4), 60, r, true, &nsetup)
+			s.dbq = "?_busy_timeout=40"
+			s.run(letters)
+		}
 	case "bfs":
 		alpha := rangeAlphabet(*nmacs)
 		total := 1
